@@ -59,7 +59,7 @@ def ensure_driver():
 def export(repo=None, target_dir=None, out_dir=None, nonce='x'):
     """run the exporter over the whole workspace; returns (ok, log)."""
     repo = repo or REPO
-    target_dir = target_dir or os.path.join(CACHE, 'target')
+    target_dir = target_dir or os.path.join(CACHE, 'target' if os.path.abspath(repo) == '/repo' else 'target-alt')
     os.makedirs(target_dir, exist_ok=True)
     os.makedirs(out_dir, exist_ok=True)
     with open(os.path.join(out_dir, 'ROOT'), 'w') as fh:
